@@ -79,6 +79,7 @@ def prelude(nl=None):
     nl = nl or NL
     return r'''
   extern crate alloc as hal;
+  use hal::vec;
   use hal::vec::Vec;
   use hal::string::String;
   use core::alloc::Layout;
@@ -743,6 +744,37 @@ def soften(text):
     return text.replace("// @DISPATCH@", "\n  ".join(d)), len(msgs) + len(GLOBAL_FLAGS)
 
 
+def runtime_hash():
+    """hash of the guest runtime crate the harness crate links (crates/guest-rust/src/**/*.rs of vlib.REPO)"""
+    import vlib
+    h = hashlib.sha256()
+    root = _os.path.join(vlib.REPO, "crates", "guest-rust", "src")
+    for d, _dirs, files in sorted(_os.walk(root)):
+        for f in sorted(files):
+            if f.endswith(".rs"):
+                h.update(f.encode())
+                with open(_os.path.join(d, f), "rb") as fh:
+                    h.update(fh.read())
+    return h.hexdigest()
+
+
+def glue_items(w_rs):
+    """[(function name, start, end)] of every `_export_<f>_cabi` / `__post_return_<f>` item (brace-matched body)"""
+    out = []
+    for m in re.finditer(r"pub unsafe fn (?:_export_(\w+)_cabi|__post_return_(\w+))<", w_rs):
+        i = w_rs.index("{", m.end())
+        depth, j = 1, i + 1
+        while depth and j < len(w_rs):
+            c = w_rs[j]
+            if c == "{":
+                depth += 1
+            elif c == "}":
+                depth -= 1
+            j += 1
+        out.append((m.group(1) or m.group(2), m.start(), j))
+    return out
+
+
 def build_lib(world, w_rs, opts, L, S, tier, nl=None):
     """-> (lib.rs text, {harness name: meta(+ 'text')}, problems)"""
     mod_text = hgen.module_text(w_rs, ["exports", "t", "p", "x"])
@@ -816,7 +848,16 @@ def build_lib(world, w_rs, opts, L, S, tier, nl=None):
         "#![allow(warnings)]", "#![no_std]", '#![recursion_limit = "512"]', "extern crate alloc;", "extern crate std;",
         "pub mod b {", w_rs, common, "\n\n".join(parts), "  // @PLAYBACK@", "}", "}",
         "#[cfg(kani)]", vh, ""])
-    chash = hashlib.sha256((w_rs + common + vh).encode()).hexdigest()
+    # cache key: everything a harness can execute -- the generated text with the glue of the OTHER exported functions
+    # (`_export_<g>_cabi`, `__post_return_<g>`: independent items the harness never calls) blanked, the common harness
+    # text, the mock host, the harness itself.  Resource harnesses call several exports: whole text.
+    items = glue_items(w_rs)
     for k, v in harnesses.items():
-        v["key"] = hashlib.sha256((chash + v["text"]).encode()).hexdigest()[:24]
+        fn = k[2:] if k.startswith("k_f_") else None
+        sliced = w_rs
+        if fn is not None:
+            for name, a, b in reversed(items):
+                if name != fn:
+                    sliced = sliced[:a] + sliced[b:]
+        v["key"] = hashlib.sha256((sliced + "\0" + common + "\0" + vh + "\0" + v["text"] + "\0" + runtime_hash()).encode()).hexdigest()[:24]
     return lib, harnesses, problems
